@@ -65,7 +65,7 @@ class TieredInterval:
                 if s_add_o_ext:
                     assert False, f"{self} and {other} are incomparable"
                 return True
-            if o > s:
+            if s > o:
                 if o_add_s_ext:
                     assert False, f"{self} and {other} are incomparable"
                 return False
